@@ -627,6 +627,17 @@ func genC14(g *Gen) {
 		sort.Slice(p, func(i, j int) bool { return p[i][0] < p[j][0] })
 		return pairsTok(p)
 	}
+	// big maps (sizes incl. thresholds a change introduced into the source)
+	for li, n := range longLens(g.Thorough()) {
+		if n > 5000 || !g.Mine() {
+			continue
+		}
+		var p [][2]int
+		for i := 0; i < n; i++ {
+			p = append(p, [2]int{i*3 - 40, (i*i + li) % 11 - 2})
+		}
+		emit(c14MapOps(pairsTok(p), []string{ints([]int{-40, -37, 5, 1000000}), ints(nil), ints([]int{2, 8, 11})}, []int{3, -9}, 1))
+	}
 	for c := 0; c < nCases; c++ {
 		var ops []string
 		for i := 0; i < 4; i++ {
@@ -634,7 +645,11 @@ func genC14(g *Gen) {
 			if i == 0 {
 				maxN = 5 // small enough for the existential comparison over iteration orders
 			}
-			m := randMap(maxN, -8, 20)
+			keyHi := 20
+			if i == 3 { // larger maps (beyond the small-size fast paths of the sort package, map growth steps)
+				maxN, keyHi = []int{30, 70, 140}[c%3], 200
+			}
+			m := randMap(maxN, -8, keyHi)
 			var keyLists []string
 			for j := 0; j < 4; j++ {
 				kl := make([]int, rng.Intn(7))
